@@ -183,11 +183,31 @@ class Gen:
             return ("pragma", r.random() >= 0.6)
         if x < 0.84 and self.mode == "B" and depth > 0:
             return ("fail",)
+        if x < 0.88:
+            return self.vscope()
         if depth < self.maxdepth:
             kind = r.choice(["defn", "fn", "defclass", "lfor"])
             body = [self.item(depth + 1) for _ in range(r.randrange(0, 6))]
             return ("scope", kind, body)
         return self.call()
+
+    def vscope(self, n=None):
+        """a let / named except body: definitions and requires that cannot fail, and calls"""
+        r = self.rng
+        body = []
+        for _ in range(r.randrange(1, 4)):
+            x = r.random()
+            if x < 0.45 or (n and not body):
+                self.ndef += 1
+                nm = n or (r.choice(self.defined) if (self.defined and r.random() < 0.4) else r.choice(DEFNAMES))
+                self.defined.append(nm)
+                body.append(("def", nm, self.ndef))
+            elif x < 0.65:
+                body.append(r.choice([("req", "hvs_a", ("list", [("ma", None), ("mb", "mc")])), ("req", "hvs_b", ("star",)),
+                                      ("req", "hvs_e", ("as", "A")), ("req", "hvs_a", ("list", [("when", None)]))]))
+            else:
+                body.append(self.call(n))
+        return ("vscope", r.choice(["let", "except"]), body)
 
     def history(self):
         r = self.rng
@@ -206,6 +226,18 @@ class Gen:
             inner = ("scope", r.choice(kinds), [self.call(n), d(), self.call(n), ("scope", r.choice(kinds), [self.call(n)])])
             outer = ("scope", r.choice(kinds), [d(), self.call(n), inner, self.call(n)])
             nest = ([d()] if r.random() < 0.5 else []) + [outer, self.call(n)]
+            k = r.randrange(len(forms) + 1)
+            forms[k:k] = nest
+        if r.random() < 0.3:
+            # a definition inside a MODULE-LEVEL let / except body is a module-level definition: it goes to the
+            # module's _hy_macros and a later module-level definition of the same name replaces it
+            n = r.choice(DEFNAMES)
+            self.ndef += 1
+            self.defined.append(n)
+            nest = [self.vscope(n), self.call(n), ("def", n, self.ndef), self.call(n)]
+            if r.random() < 0.5:
+                nest.append(("scope", r.choice(["defn", "fn", "defclass", "lfor"]), [self.vscope(n), self.call(n)]))
+                nest.append(self.call(n))
             k = r.randrange(len(forms) + 1)
             forms[k:k] = nest
         if r.random() < 0.35:
@@ -278,6 +310,11 @@ class Render:
                 return "(require %s :as %s)" % (ms, hy_spelling(sh[1], self.rng))
             ents = " ".join(hy_spelling(k, self.rng) + (" :as " + hy_spelling(a, self.rng) if a else "") for k, a in sh[1])
             return "(require %s [%s])" % (ms, ents)
+        if t == "vscope":
+            body = " ".join(self.item(x) for x in it[2])
+            if it[1] == "let":
+                return "(let [_v 1] %s None)" % body
+            return '(try (raise (ValueError "x")) (except [_e ValueError] %s None))' % body
         if t == "scope":
             self.k += 1
             body = " ".join(self.item(x) for x in it[2])
@@ -334,10 +371,24 @@ def coq_defs():
 SENT = 1000000
 
 
+def flatten(items):
+    """`let` and `except` bodies open a variable scope but NOT a macro scope: for the macro namespaces their
+    items belong to the enclosing block"""
+    out = []
+    for it in items:
+        if it[0] == "vscope":
+            out.extend(flatten(it[2]))
+        elif it[0] == "scope":
+            out.append(("scope", it[1], flatten(it[2])))
+        else:
+            out.append(it)
+    return out
+
+
 def with_sentinels(forms):
     out = []
     for j, f in enumerate(forms):
-        out.append(f)
+        out.extend(flatten([f]))
         out.append(("call", SENT + j, "hvnone"))
     return out
 
@@ -485,7 +536,7 @@ class Spec:
         out = []
         for f in forms:
             rec = {"warn": [], "calls": {}, "exc": None, "warn_unjudged": False}
-            rec["exc"] = self.items([f], env, rec)
+            rec["exc"] = self.items(flatten([f]), env, rec)
             out.append(rec)
         return out
 
@@ -584,7 +635,7 @@ def call_names(forms, out=None):
     for it in forms:
         if it[0] == "call":
             out[it[1]] = it[2]
-        elif it[0] == "scope":
+        elif it[0] in ("scope", "vscope"):
             call_names(it[2], out)
     return out
 
@@ -594,6 +645,8 @@ def has_local_pkg_require(it, depth=0):
         return any(dict((m, k) for m, k, _ in SRC).get("hvs_pkg." + s) for s, _ in it[2][1])
     if it[0] == "scope":
         return any(has_local_pkg_require(x, depth + 1) for x in it[2])
+    if it[0] == "vscope":
+        return any(has_local_pkg_require(x, depth) for x in it[2])
     return False
 
 
@@ -692,6 +745,9 @@ CORPUS = [
         ("scope", "fn", [("pragma", True), ("def", "when", 101), ("scope", "defn", [("pragma", False), ("def", "cond", 102)]),
                          ("def", "assert", 103)]),
         ("def", "cond", 104)]},
+    {"mode": "A", "extra": [], "local_pkg": False, "forms": [
+        ("vscope", "let", [("def", "ma", 101)]), ("call", 1, "ma"), ("def", "ma", 102), ("call", 2, "ma"),
+        ("vscope", "except", [("req", "hvs_a", ("list", [("mb", None)])), ("call", 3, "mb")]), ("def", "mb", 103), ("call", 4, "mb")]},
     {"mode": "B", "extra": [], "local_pkg": True, "forms": [
         ("scope", "defn", [("req", "hvs_pkg", ("list", [("sub1", None)])), ("call", 1, "sub1.ma")]), ("call", 2, "sub1.ma")]},
 ]
